@@ -154,13 +154,8 @@ func checkC02(c *Ctx) {
 		if op.Method != "Delete" {
 			continue
 		}
-		var clear ssa.Instruction
-		eachInstr(op.Fn, func(in ssa.Instruction) {
-			if val, isConst, ok := m.claimStore(in); ok && isConst && !val {
-				clear = in
-			}
-		})
-		c.check(clear != nil && dominatesInstr(clear, op.Call), "R3", "claim cleared before Delete in "+shortFn(op.Fn), op.Call, "claim Store(false) dominates the Delete: %v", clear != nil && dominatesInstr(clear, op.Call))
+		clear := m.clearPoint(op.Fn, op.Call)
+		c.check(clear != nil, "R3", "claim cleared before Delete in "+shortFn(op.Fn), op.Call, "claim Store(false) (or a call of a function that always clears it) dominates the Delete: %v", clear != nil)
 	}
 }
 
